@@ -25,6 +25,8 @@ META = {
 }
 
 WITNESSES = [
+    "0.3::e(a,a). 0.4::e(a,b). 0.5::e(b,a). loop :- e(X,X). link :- e(X,Y). both :- e(X,X), e(Y,Z). query(loop). query(link). query(both).",
+    "0.3::e(a,a). 0.4::e(a,b). 0.5::e(b,a). link :- e(X,Y). loop :- e(X,X). half(X) :- e(a,X). query(e(X,X)). query(e(X,Y)). query(half(X)). query(link).",
     "0.3::d0. d1 :- d0. 0.1::a; 0.2::d1 :- d1, \\+d0, d0. query(a). query(d1).",
     "d1 :- d1. d1 :- \\+d2. d2 :- d2. query(d1).",
     "0.1::f0. d3 :- f0, d3. d3 :- \\+f0, f0. query(d3).",
